@@ -13,6 +13,7 @@ import (
 
 	"github.com/golang/protobuf/proto"
 	"github.com/itchio/lake/pools/fspool"
+	"github.com/itchio/lake/tlc"
 	"github.com/itchio/savior/seeksource"
 	"github.com/itchio/wharf/bsdiff"
 	"github.com/itchio/wharf/pwr"
@@ -20,6 +21,7 @@ import (
 	"github.com/itchio/wharf/pwr/overlay"
 	"github.com/itchio/wharf/pwr/patcher"
 	"github.com/itchio/wharf/pwr/rediff"
+	"github.com/itchio/wharf/wsync"
 	"verif/lib"
 )
 
@@ -135,7 +137,35 @@ func patchMutants(ps *lib.PatchStream) []mutant {
 					add(fmt.Sprintf("msg%d SyncOp.BlockSpan=%d", i, v), func(ms []proto.Message) []proto.Message { ms[i].(*pwr.SyncOp).BlockSpan = v; return ms })
 				}
 			}
+			if m.Type == pwr.SyncOp_BLOCK_RANGE {
+				// two fields damaged together (sums that wrap or land back in range)
+				const maxI, minI = int64(1<<63 - 1), int64(-1 << 63)
+				for _, pr := range [][2]int64{{-1 << 62, 1<<62 + 2}, {minI, maxI}, {minI, -1}, {-1, 2}, {-5, 10}, {oldBlocks - 1, maxI}, {1 << 62, 1 << 62}, {maxI, 1}, {maxI, maxI}, {1, maxI}, {minI, minI}, {-oldBlocks, 2 * oldBlocks}} {
+					pr := pr
+					add(fmt.Sprintf("msg%d SyncOp.BlockIndex=%d+BlockSpan=%d", i, pr[0], pr[1]), func(ms []proto.Message) []proto.Message {
+						o := ms[i].(*pwr.SyncOp)
+						o.BlockIndex, o.BlockSpan = pr[0], pr[1]
+						return ms
+					})
+				}
+				for _, pr := range [][2]int64{{-1, -1}, {nOld, 0}, {nOld - 1, 1 << 40}, {minI, minI}, {1 << 62, -1 << 62}} {
+					pr := pr
+					add(fmt.Sprintf("msg%d SyncOp.FileIndex=%d+BlockIndex=%d", i, pr[0], pr[1]), func(ms []proto.Message) []proto.Message {
+						o := ms[i].(*pwr.SyncOp)
+						o.FileIndex, o.BlockIndex = pr[0], pr[1]
+						return ms
+					})
+				}
+			}
 			if m.Type == pwr.SyncOp_DATA {
+				// a data op that turns into a block range: with explicit ranges and with all-zero fields
+				for _, pr := range [][3]int64{{0, 0, 1}, {0, 0, 0}, {0, 1, 1}, {nOld, 0, 1}, {0, -1 << 62, 1<<62 + 2}} {
+					pr := pr
+					add(fmt.Sprintf("msg%d data op becomes BLOCK_RANGE file=%d index=%d span=%d", i, pr[0], pr[1], pr[2]), func(ms []proto.Message) []proto.Message {
+						ms[i] = &pwr.SyncOp{Type: pwr.SyncOp_BLOCK_RANGE, FileIndex: pr[0], BlockIndex: pr[1], BlockSpan: pr[2]}
+						return ms
+					})
+				}
 				add(fmt.Sprintf("msg%d SyncOp.Data=empty", i), func(ms []proto.Message) []proto.Message { ms[i].(*pwr.SyncOp).Data = nil; return ms })
 				add(fmt.Sprintf("msg%d SyncOp.Data+1", i), func(ms []proto.Message) []proto.Message {
 					o := ms[i].(*pwr.SyncOp)
@@ -179,6 +209,14 @@ func patchMutants(ps *lib.PatchStream) []mutant {
 					v := want - cur
 					add(fmt.Sprintf("msg%d Control.Seek lands old offset on %d (size %d)", i, want, tgt), func(ms []proto.Message) []proto.Message { ms[i].(*bsdiff.Control).Seek = v; return ms })
 				}
+			}
+			for _, pr := range [][2]int64{{-1 << 62, oldSize}, {1<<63 - 1, 1}, {-1 << 63, 0}, {-oldSize, oldSize + 1}} {
+				pr := pr
+				add(fmt.Sprintf("msg%d Control.Seek=%d+Add of %d bytes", i, pr[0], pr[1]), func(ms []proto.Message) []proto.Message {
+					c := ms[i].(*bsdiff.Control)
+					c.Seek, c.Add = pr[0], make([]byte, pr[1])
+					return ms
+				})
 			}
 			add(fmt.Sprintf("msg%d Control.Add past old end", i), func(ms []proto.Message) []proto.Message {
 				ms[i].(*bsdiff.Control).Add = make([]byte, oldSize+10)
@@ -257,6 +295,8 @@ type c10Seeds struct {
 	pair           *lib.Pair
 	oldDir, newDir string
 	patch, opt     []byte
+	first          []byte // patch of the same new build against an EMPTY old build (first install)
+	emptyDir       string
 	sig            []byte
 	overlays       [][2][]byte // overlay bytes, old content
 }
@@ -275,6 +315,13 @@ func c10MakeSeeds(seed uint64, variant int, scratch string) (*c10Seeds, error) {
 		return nil, err
 	}
 	s.opt = ob.Bytes()
+	s.emptyDir = filepath.Join(scratch, "empty-old")
+	os.MkdirAll(s.emptyDir, 0o755)
+	fr, err := lib.DiffDirs(s.emptyDir, s.newDir, lib.Comp{Algo: "none"}, nil, nil, nil)
+	if err != nil {
+		return nil, err
+	}
+	s.first = fr.Patch
 	r := lib.NewRng(lib.Mix(seed, 1011))
 	for i := 0; i < 3; i++ {
 		old := lib.RandomBytes(int64(r.Range(0, 40000)), r.Uint64())
@@ -303,9 +350,12 @@ func c10Cases(tier string, seed uint64, flavor string) []lib.Case {
 	}
 	for si := 0; si < nseeds; si++ {
 		sd := lib.Mix(seed, 10, uint64(si))
-		for _, st := range []string{"patch", "optpatch", "sig", "overlay"} {
+		for _, st := range []string{"patch", "optpatch", "firstpatch", "sig", "overlay"} {
 			for _, comp := range []string{"none", "gzip", "brotli"} {
 				if st == "overlay" && comp != "none" {
+					continue
+				}
+				if st == "firstpatch" && tier != "thorough" && si > 0 {
 					continue
 				}
 				// the supervisor does not know mutant counts: chunks are open-ended and clamp themselves
@@ -452,6 +502,33 @@ func (cr *c10Runner) feedSig(stream []byte, desc string) {
 	})
 }
 
+// feedSigInfo hands ComputeHashInfo (and a validating pool built on the result) a signature value directly.
+func (cr *c10Runner) feedSigInfo(cont *tlc.Container, hs []*pwr.BlockHash, desc string) {
+	fmt.Fprintf(os.Stderr, "mutant %s\n", desc)
+	s := cr.seeds
+	cr.call("hashinfo+validatingpool", desc, func() error {
+		si := &pwr.SignatureInfo{Container: cont}
+		for i, h := range hs {
+			si.Hashes = append(si.Hashes, wsync.BlockHash{FileIndex: 0, BlockIndex: int64(i), WeakHash: h.WeakHash, StrongHash: h.StrongHash})
+		}
+		if _, err := pwr.ComputeHashInfo(si); err != nil {
+			return err
+		}
+		vp := &pwr.ValidatingPool{Pool: &recWPool{data: map[int64][]byte{}, closed: map[int64]bool{}, sizes: make([]int64, len(si.Container.Files))}, Container: si.Container, Signature: si}
+		for i, f := range si.Container.Files {
+			w, err := vp.GetWriter(int64(i))
+			if err != nil {
+				return err
+			}
+			if e := s.pair.New.E[f.Path]; e != nil {
+				w.Write(e.Data)
+			}
+			w.Close()
+		}
+		return nil
+	})
+}
+
 func (cr *c10Runner) feedOverlay(stream, old []byte, desc string) {
 	fmt.Fprintf(os.Stderr, "mutant %s\n", desc)
 	cr.n++
@@ -488,10 +565,14 @@ func c10Run(c lib.Case, env *lib.Env) lib.Result {
 	_ = recompress
 	nmut := 0
 	switch s.Stream {
-	case "patch", "optpatch":
+	case "patch", "optpatch", "firstpatch":
 		base := seeds.patch
 		if s.Stream == "optpatch" {
 			base = seeds.opt
+		}
+		if s.Stream == "firstpatch" {
+			base = seeds.first
+			seeds.oldDir = seeds.emptyDir // the old build has no file at all
 		}
 		ps, derr := lib.DecodePatch(base)
 		if derr != nil {
@@ -570,6 +651,12 @@ func c10Run(c lib.Case, env *lib.Env) lib.Result {
 				if inChunk(nmut) {
 					enc, _ := lib.EncodeStream(lib.MagicSig, hdr, body(variants[name]), comp)
 					cr.feedSig(enc, fmt.Sprintf("#%d sig/%s %s (container needs %d)", nmut, s.Comp, name, n))
+				}
+				nmut++
+				// the hash grouping built straight from a signature value with that hash list (ReadSignature itself
+				// stops reading after the hashes the container needs)
+				if inChunk(nmut) && s.Comp == "none" {
+					cr.feedSigInfo(ss.Container, variants[name], fmt.Sprintf("#%d siginfo %s (container needs %d)", nmut, name, n))
 				}
 				nmut++
 			}
@@ -726,7 +813,7 @@ func init() {
 	lib.Register(&lib.Property{
 		ID:          "C10",
 		Level:       "fault_enumeration",
-		Rule:        "seed streams: valid plain and optimized (ForceMapAll) patches of a small pair (multi-op file, whole-file op, empty file, fresh file, dir, symlink), its signature, three overlays; each re-framed uncompressed, GZIP and BROTLI by the independent encoder (every message carries its true length; the two containers are never mutated). (a) truncation at EVERY byte of uncompressed streams <= 8 KiB (every 97th byte plus the first/last 600 above; first/last 512 + every 211th byte of compressed ones); (b) field mutation: every index/span/length/seek field of every message set to {-1,0,1,L-1,L,L+1,2^31-1,2^31,2^32,2^62} (and -L-1, -2^62 for seeks), op/series kinds set to every other legal and to unknown values, end markers dropped / duplicated / inserted early, sync headers swapped, add longer than the old file, copy empty, Eof flipped / dropped, series appended, signatures with n-1 / n+1 / 0 / 1 / k / 2n hashes and damaged hash fields, overlay SKIP negative/huge, FRESH empty, ops dropped / duplicated. Every mutant goes to patcher.New/Resume with fresh and dry bowl, rediff.NewContext/Optimize, ReadSignature+ComputeHashInfo+validating pool+AssertValid, OverlayPatchContext.Patch; oracle: the call returns (recover in the caller, child-exit attribution for panics in other goroutines, quiescence detector for hangs). distinct = distinct (stream, mode, framing, chunk, seed)",
+		Rule:        "seed streams: valid plain and optimized (ForceMapAll) patches of a small pair, the first-install patch of the same new build against an EMPTY old build (multi-op file, whole-file op, empty file, fresh file, dir, symlink), its signature, three overlays; each re-framed uncompressed, GZIP and BROTLI by the independent encoder (every message carries its true length; the two containers are never mutated). (a) truncation at EVERY byte of uncompressed streams <= 8 KiB (every 97th byte plus the first/last 600 above; first/last 512 + every 211th byte of compressed ones); (b) field mutation: every index/span/length/seek field of every message set to {-1,0,1,L-1,L,L+1,2^31-1,2^31,2^32,2^62} (and -L-1, -2^62 for seeks), op/series kinds set to every other legal and to unknown values, two fields damaged together (block index + span / file index + block index / seek + add with sums that wrap or land back in range; a data op turned into a block range), signature values with each hash-list variant handed to ComputeHashInfo directly, end markers dropped / duplicated / inserted early, sync headers swapped, add longer than the old file, copy empty, Eof flipped / dropped, series appended, signatures with n-1 / n+1 / 0 / 1 / k / 2n hashes and damaged hash fields, overlay SKIP negative/huge, FRESH empty, ops dropped / duplicated. Every mutant goes to patcher.New/Resume with fresh and dry bowl, rediff.NewContext/Optimize, ReadSignature+ComputeHashInfo+validating pool+AssertValid, OverlayPatchContext.Patch; oracle: the call returns (recover in the caller, child-exit attribution for panics in other goroutines, quiescence detector for hangs). distinct = distinct (stream, mode, framing, chunk, seed)",
 		Assumptions: []string{"output content is not judged", "a panic with 'out of memory' / 'makeslice: len out of range' would be classed out-of-domain (huge allocation); none is expected because all declared lengths are true"},
 		Cases:       c10Cases,
 		Run:         c10Run,
